@@ -75,6 +75,12 @@ func main() {
 		s = runHist(*seed, *n, *shards, *out, tmp, *backend, h.GenParams{
 			MaxCap: *maxcap, MinOps: *minops, MaxOps: *maxops, BigEvery: *bigevery, Queries: *queries,
 		})
+	case "backend":
+		s = runBackend(*seed, *n, *shards, *out, tmp)
+	case "lockstep":
+		s = runLockstep(*seed, *n, *shards, *out, tmp, h.GenParams{
+			MaxCap: *maxcap, MinOps: *minops, MaxOps: *maxops, BigEvery: *bigevery, Queries: 0,
+		})
 	case "load":
 		s = runLoad(*seed, *n, *shards, *out, tmp, *backend, *maxcap, *maxops, *queries, *corpus)
 	default:
@@ -305,4 +311,166 @@ func runLoad(seed uint64, n, shards int, out, tmp, backend string, maxcap, maxop
 	s.Distinct = len(distinct)
 	writeShards(&s, cases, shards, out, "load")
 	return s
+}
+
+func runBackend(seed uint64, n, shards int, out, tmp string) summary {
+	s := summary{
+		Family: "backend", Seed: seed, OpKinds: map[string]int{}, Results: map[string]int{},
+		Backends: map[string]int{}, Caps: map[string]int{}, OracleRuns: map[string]int{},
+		Extra: map[string]any{},
+	}
+	root := h.NewRng(seed)
+	var cases []h.BCase
+	distinct := map[string]bool{}
+	for i := 0; i < n; i++ {
+		r := root.Fork()
+		inContract := i%3 != 2
+		init := h.GenContent(r, h.Pick(r, []int{0, 0, 10, 500}))
+		calls := h.GenBCalls(r, 6+r.Intn(20), inContract)
+		var pair [2]h.BCase
+		for k, buf := range []bool{true, false} {
+			c := h.BCase{ID: 2*i + k + 1, Buffer: buf, Init: init, Calls: append([]h.BCall(nil), calls...)}
+			if err := h.RunBCase(&c, tmp); err != nil {
+				fmt.Fprintln(os.Stderr, "harness error:", err)
+				os.Exit(3)
+			}
+			pair[k] = c
+			cases = append(cases, c)
+			s.Backends[map[bool]string{true: "buf", false: "file"}[buf]]++
+			sig := fmt.Sprint(buf)
+			for _, x := range c.Calls {
+				s.Steps++
+				s.OpKinds[x.Kind]++
+				s.Results[fmt.Sprintf("%s:err%d", x.Kind, x.RErr)]++
+				sig += fmt.Sprintf("|%s%d", x.Kind, x.RErr)
+			}
+			distinct[sig] = true
+		}
+		// C14 oracle: inside the contract both backends must answer alike
+		if inContract {
+			s.OracleRuns["bisim"]++
+			a, b := pair[0], pair[1]
+			bad := ""
+			for j := range a.Calls {
+				x, y := a.Calls[j], b.Calls[j]
+				if string(x.RData) != string(y.RData) || x.RN != y.RN || x.RErr != y.RErr {
+					bad = fmt.Sprintf("call %d (%s): buffer replied (%d bytes, %d, err %d), file (%d bytes, %d, err %d)", j, x.Kind, len(x.RData), x.RN, x.RErr, len(y.RData), y.RN, y.RErr)
+					break
+				}
+			}
+			if bad == "" && string(a.Final) != string(b.Final) {
+				bad = fmt.Sprintf("final contents differ: buffer %d bytes, file %d bytes", len(a.Final), len(b.Final))
+			}
+			if bad != "" {
+				var calls []string
+				for _, x := range a.Calls {
+					calls = append(calls, x.Coq())
+				}
+				s.Oracle = append(s.Oracle, h.Finding{Property: "C14", Case: a.ID, What: bad, Input: fmt.Sprintf("init %d bytes; calls %v", len(init), calls)})
+			}
+		}
+		if len(s.Samples) < 3 {
+			var ks []string
+			for _, x := range calls {
+				ks = append(ks, x.Kind)
+			}
+			s.Samples = append(s.Samples, fmt.Sprintf("case %d in_contract=%v calls=%v", 2*i+1, inContract, ks))
+		}
+	}
+	s.Cases = len(cases)
+	s.Distinct = len(distinct)
+	if shards < 1 {
+		shards = 1
+	}
+	for k := 0; k < shards; k++ {
+		var part []h.BCase
+		for i := k; i < len(cases); i += shards {
+			part = append(part, cases[i])
+		}
+		if len(part) == 0 {
+			continue
+		}
+		name := fmt.Sprintf("Cases_backend_%d.v", k)
+		if err := os.WriteFile(filepath.Join(out, name), []byte(h.BCasesFile(part)), 0o644); err != nil {
+			panic(err)
+		}
+		s.Files = append(s.Files, name)
+	}
+	return s
+}
+
+// runLockstep runs every history on sif.Buffer and on a file and compares them step by step.
+func runLockstep(seed uint64, n, shards int, out, tmp string, p h.GenParams) summary {
+	s := summary{
+		Family: "lockstep", Seed: seed, OpKinds: map[string]int{}, Results: map[string]int{},
+		Backends: map[string]int{}, Caps: map[string]int{}, OracleRuns: map[string]int{},
+	}
+	root := h.NewRng(seed)
+	var cases []h.Case
+	distinct := map[string]bool{}
+	for i := 0; i < n; i++ {
+		seedi := root.U64()
+		var pair [2]h.Case
+		for k, be := range []string{"buf", "file"} {
+			pp := p
+			pp.Backend = be
+			pp.NoDefaultTime = true // the two runs must not depend on the wall clock
+			c := h.GenHistory(h.NewRng(seedi), 2*i+k+1, pp)
+			if _, err := h.RunCase(&c, tmp); err != nil {
+				fmt.Fprintln(os.Stderr, "harness error:", err)
+				os.Exit(3)
+			}
+			tally(&s, &c, distinct)
+			pair[k] = c
+			cases = append(cases, c)
+		}
+		s.OracleRuns["lockstep"]++
+		a, b := pair[0], pair[1]
+		class := ""
+		if a.Create != nil && a.Create.EffCap() == 0 {
+			class = "F4b"
+		}
+		report := func(step int, what string) {
+			s.Oracle = append(s.Oracle, h.Finding{Property: "C14", Case: a.ID, Step: step, Class: class, What: what, Input: a.Describe(step)})
+		}
+		if a.InitObs.Res != b.InitObs.Res {
+			report(0, fmt.Sprintf("creation: buffer %s, file %s", a.InitObs.Res, b.InitObs.Res))
+		} else if string(a.InitObs.Store) != string(b.InitObs.Store) {
+			report(0, fmt.Sprintf("after creation the contents differ: buffer %d bytes, file %d bytes", len(a.InitObs.Store), len(b.InitObs.Store)))
+		}
+		for j := range a.Steps {
+			if j >= len(b.Steps) {
+				break
+			}
+			x, y := a.Steps[j].Obs, b.Steps[j].Obs
+			if x.Res != y.Res {
+				report(j+1, fmt.Sprintf("%s: buffer %s, file %s", a.Steps[j].Op.KindName(), x.Res, y.Res))
+				break
+			}
+			if string(x.Store) != string(y.Store) {
+				report(j+1, fmt.Sprintf("after %s the contents differ: buffer %d bytes, file %d bytes, first difference at %d", a.Steps[j].Op.KindName(), len(x.Store), len(y.Store), firstDiffBytes(x.Store, y.Store)))
+				break
+			}
+		}
+		if len(s.Samples) < 3 {
+			s.Samples = append(s.Samples, fmt.Sprintf("case %d/%d cap=%d ops=%d", a.ID, b.ID, a.Create.EffCap(), len(a.Steps)))
+		}
+	}
+	s.Cases = len(cases)
+	s.Distinct = len(distinct)
+	writeShards(&s, cases, shards, out, "lockstep")
+	return s
+}
+
+func firstDiffBytes(a, b []byte) int {
+	n := len(a)
+	if len(b) < n {
+		n = len(b)
+	}
+	for i := 0; i < n; i++ {
+		if a[i] != b[i] {
+			return i
+		}
+	}
+	return n
 }
